@@ -15,6 +15,7 @@ import ast
 
 from ..model import src, walk_no_nested
 from . import common
+from .. import tq
 
 EXPLANATION = ('static analysis: typestate abstract interpretation of IkeSa (14 states, per-state summaries over the '
                'resolved call graph with exception edges), extraction of the admission relation per exchange, '
@@ -252,25 +253,29 @@ def run(ctx):
         ctx.check('ChildSaRejectedError' not in e, 'S3', 'a rejected CHILD_SA does not tear down the IKE_SA '
                   '(ChildSaRejectedError is contained in %s)' % h.name, key=('S3', 'rejected-escapes', h.qual),
                   site=ctx.site(h, h.node))
-    # membership tests before follow-up delete / kernel delete
-    for n, x in common.nodes_calling(ctx, ccresp, g3, common.calls_named('generate_delete_child_sa_request')):
-        if x.args and src(x.args[0]) == 'self.rekeying_child_sa':
-            conds = [c for c in g3.nodes if c.kind == 'cond' and src(c.ast) == 'self.rekeying_child_sa in self.child_sas']
-            ctx.check(any(common.dominated_by_edge(g3, n, c, 'T') for c in conds), 'S3',
+    # membership tests before follow-up delete / kernel delete (value terms: the call's path condition entails the membership,
+    # however the test is written - `if x in l:`, `if x not in l: return`, in a helper)
+    CR = ctx.sval(ccresp)
+    old = CR.expr('self.rekeying_child_sa')
+    nd = 0
+    for c in CR.calls:
+        if c.name == 'generate_delete_child_sa_request' and list(c.args.values())[:1] == [old]:
+            nd += 1
+            ctx.check(tq.entails(c.pc, CR.expr('self.rekeying_child_sa in self.child_sas')) is True, 'S3',
                       'the old CHILD_SA is deleted after a rekey only if it is still tracked',
-                      key=('S3', 'rekeyed-still-tracked'), site=ctx.site(ccresp, x))
+                      key=('S3', 'rekeyed-still-tracked'), site=ctx.site(ccresp, c.node))
+    ctx.floor('S3 follow-up delete of the rekeyed CHILD_SA', nd, 1, rule='S3')
     ir = ctx.func('ikesa.IkeSa.process_informational_response')
-    g4 = esc.add_exception_edges(ir)
-    for n, x in common.nodes_calling(ctx, ir, g4, common.calls_named('delete_child_sa')) + \
-            common.nodes_calling(ctx, ir, g4, common.calls_named('remove')):
-        arg = src(x.args[-1]) if x.args else ''
-        if 'deleting_child_sa' not in arg:
-            continue
-        conds = [(c, 'F') for c in g4.nodes if c.kind == 'cond' and src(c.ast) == '%s not in self.child_sas' % arg] + \
-                [(c, 'T') for c in g4.nodes if c.kind == 'cond' and src(c.ast) == '%s in self.child_sas' % arg]
-        ctx.check(any(common.dominated_by_edge(g4, n, c, lab) for c, lab in conds), 'S3',
-                  '`%s` runs only if the CHILD_SA is still tracked' % src(x)[:60],
-                  key=('S3', 'delete-still-tracked', src(x.func)), site=ctx.site(ir, x))
+    IR = ctx.sval(ir)
+    dch = IR.expr('self.deleting_child_sa')
+    nd = 0
+    for c in IR.calls:
+        if c.name in ('delete_child_sa', 'remove') and c.args and list(c.args.values())[-1] == dch:
+            nd += 1
+            ctx.check(tq.entails(c.pc, IR.expr('self.deleting_child_sa in self.child_sas')) is True, 'S3',
+                      '`%s(.. self.deleting_child_sa)` runs only if the CHILD_SA is still tracked' % c.name,
+                      key=('S3', 'delete-still-tracked', c.name), site=ctx.site(ir, c.node))
+    ctx.floor('S3 removal of the CHILD_SA whose deletion was answered', nd, 2, rule='S3')
 
     # S3 (2.8 / 2.25.2): while an IKE_SA rekey is outstanding the old IKE_SA keeps serving CHILD_SA exchanges, so the
     # CHILD_SAs are inherited by the successor at the moment the rekey commits - not when it is requested - or the
